@@ -57,6 +57,12 @@ def _note(draw, zid: str, all_zids: list, force_id=None):
     lines = [{"ind": "", "words": ws}]
     if draw(st.integers(0, 4)) == 0:
         lines.append({"ind": "  * ", "words": [W(draw(st.sampled_from(TEXT))), W(draw(st.sampled_from(TEXT)))]})
+    if draw(st.integers(0, 5)) == 0:
+        # a property drawer; one entry in three was left empty ("- k::" indexes the value '')
+        lines.append({"ind": "  * ", "words": [W("PROPERTY:")]})
+        for key in draw(st.lists(st.sampled_from(["k", "n", "due", "rating"]), min_size=1, max_size=2, unique=True)):
+            vs = [] if draw(st.integers(0, 2)) == 0 else [draw(st.sampled_from(PROP_VALUES.get(key, ["3", "4"])))]
+            lines.append({"ind": "    - ", "bprop": [key, vs]})
     return {"kind": kind, "prio": prio, "modify": modify, "zid": zid, "longdate": None, "gap": 1, "lines": lines}
 
 
@@ -152,7 +158,7 @@ def hit_atom(draw, depth, max_depth):
         return {"t": draw(st.sampled_from(["create", "modify"])), "start": draw(hit_date()),
                 "end": draw(st.one_of(st.none(), hit_date()))}
     if k < 13:
-        key = draw(st.sampled_from(["k", "due", "n", "pri", "ID", "missing"]))
+        key = draw(st.sampled_from(["k", "due", "n", "pri", "ID", "missing", "rating"]))
         op = draw(st.sampled_from(["exists", "eq", "eq", "lt", "le", "gt", "ge"]))
         if op == "exists":
             return {"t": "prop", "key": key, "op": op, "value": "", "neg": neg}
